@@ -21,6 +21,7 @@ RULE = (
     "selected plates, scorer in {GaussianDBAL, Size, Random}; 1 in 5 cases through the CLIs on files. Non-trivial = twin differs in >=1 masked value and >=1 plate is scored. "
     "distinct = distinct case JSON."
     ' Also: refusal of plates holding observed and masked rows (partial set_observed, mixed merge).'
+    ' Also: production-size refusals (70000 .. 524298 observations, one NaN / negative value near the end): nothing kept, the repaired batch counts once.'
 )
 ASSUMPTIONS = [
     "both runs execute under 'controlled randomness' (global numpy state seeded, unseeded default_rng() made a function of the seed) so that non-interference is decided independently of C18",
@@ -252,7 +253,50 @@ def _same(a, b):
     return a == b
 
 
+def exhaustive(tier):
+    # a production-size batch with one unusable observation far into it: refused as a whole, and the repaired batch is then used
+    # exactly once
+    for n, bad_at, bad, model in [(270000, 265000, float("nan"), "SparseDrugCombo"), (70000, 69999, -0.2, "SparseDrugCombo")] + ([(2**19 + 10, 2**19 + 5, -0.2, "SparseDrugCombo"), (140000, 131073, float("nan"), "SparseDrugCombo"), (30000, 29000, float("nan"), "SparseDrugComboInteraction")] if tier != "quick" else []):
+        yield {"kind": "big_refusal", "n": n, "bad_at": bad_at, "bad": bad, "model": model}
+
+
+def _check_big_refusal(case):
+    from batchie.data import ExperimentSpace, Screen
+    from batchie.models.sparse_combo import SparseDrugCombo
+    from batchie.models.sparse_combo_interaction import SparseDrugComboInteraction
+
+    n = case["n"]
+    i = np.arange(n)
+    nt = 9
+    a, b = i % nt, (i + 1 + i // nt % (nt - 1)) % nt
+    single = i % 11 == 0
+    names = np.array(["t%d" % k for k in range(nt)] + ["ctl"])
+    tn = np.stack([names[a], np.where(single, "ctl", names[b])], axis=1)
+    td = np.stack([np.ones(n), np.where(single, 0.0, 1.0)], axis=1)
+    good = 0.1 + 0.8 * ((i * 7919) % 1000) / 1000.0
+    bad = good.copy()
+    bad[case["bad_at"]] = case["bad"]
+    mk = lambda obs: Screen(treatment_names=tn, treatment_doses=td, observations=obs, observation_mask=np.ones(n, dtype=bool), sample_names=np.array(["s%d" % k for k in range(4)])[i % 4], plate_names=np.array(["p%d" % k for k in range(6)])[i % 6], control_treatment_name="ctl")
+    s_bad, s_good = mk(bad), mk(good)
+    cls = SparseDrugCombo if case["model"] == "SparseDrugCombo" else SparseDrugComboInteraction
+    model = cls(experiment_space=ExperimentSpace.from_screen(s_good), n_embedding_dimensions=1)
+    try:
+        model.add_observations(s_bad)
+    except ValueError:
+        pass
+    else:
+        raise Violation("big_refusal.accepted", "%s accepted %d observations although observation %d is %r" % (case["model"], n, case["bad_at"], case["bad"]))
+    require(model.n_obs() == 0, "big_refusal.state", lambda: "%s refused a batch of %d observations (observation %d is %r) but holds %d of them afterwards" % (case["model"], n, case["bad_at"], case["bad"], model.n_obs()))
+    model.add_observations(s_good)
+    fresh = cls(experiment_space=ExperimentSpace.from_screen(s_good), n_embedding_dimensions=1)
+    fresh.add_observations(s_good)
+    require(model.n_obs() == fresh.n_obs(), "big_refusal.then_exactly_once", lambda: "after a refused batch the repaired batch of %d observations leaves the model with %d observations; a fresh model holds %d" % (n, model.n_obs(), fresh.n_obs()))
+    return {"nontrivial": True, "labels": ["big-refusal", case["model"]]}
+
+
 def check_case(case):
+    if case.get("kind") == "big_refusal":
+        return _check_big_refusal(case)
     from batchie.data import ExperimentSpace, create_single_treatment_effect_map
     from vf.cli import warm
 
